@@ -23,6 +23,8 @@ CLAIMS = {
          "template loading/filling inside the loop is havocked; the default-layout dispatch in Render is not under contract; filepath.Join/Dir and fs.Stat are uninterpreted."),
  "C08": ("template.Fill: the root scope is a fresh map with front-matter > passed data > config for every key (three map-range loops with visited-set invariants, exact postcondition); Stack.EnvMap agrees with Lookup for every name (scopes innermost-first, root struct fields as fallback).",
          "one inner-loop invariant of EnvMap is listed as not decided; toMapData (struct data through reflection) is a trusted contract; loadConfig order not under contract."),
+ "C09": ("Lock discipline for every shared cache (ExprEvaluator.programs, Vue.templateCache, the global pathCache): the guarded map is read only with its RWMutex held (read or write) and written only with the write lock; every locking function starts with no lock held and releases everything on every return path (ghost held-state, Lock/RLock/Unlock/RUnlock preconditions); clone helpers used before evaluation return fresh nodes with copied attribute slices.",
+         "NOT a schedule exploration: interleavings, happens-before outside the declared guarded fields, pool hand-over and 'same bytes as alone' are not decided; assumes no lock is held when a locking function is entered."),
  "C10": ("Pool discipline: Pop empties a map before Put (loop invariant over the visited set) and only recycles maps that came from the pool (object invariant of Stack, ghost fromPool); the pooled strings.Builder is Reset before Put on every path of interpolate (deferred closure); NewNode zeroes every field; clone helpers copy attribute slices.",
          "determinism of attribute order (map iteration) and cache soundness are not under contract."),
  "C11": ("Zero-annotation panic sweep over every function of the production packages: index/slice bounds, nil dereference, type assertions, nil-map writes, division by zero, explicit panics; layout loop termination (decreases). Discharged obligations form the baseline.",
@@ -45,7 +47,6 @@ CLAIMS = {
          "path resolution through reflection (Resolve/resolveStep) is outside the subset: not claimed here; ResolveValue/PopulateStructFields are trusted stubs."),
 }
 NA = {
- "C09": "lock/ownership discipline obligations not built yet (no schedule exploration in this technique)",
  "C20": "equivalence with an external reference renderer (goldmark) over all documents: no contract on a repository function can express the oracle (DESIGN.md §8)",
 }
 
